@@ -478,6 +478,166 @@ fn secs_bucket(events: &[crate::mon::Ev]) -> usize {
     events.len() / 50
 }
 
+/// The write buffer driven directly (public `WriteBuffer` API) with FEWER WORKERS THAN SHARDS - a configuration
+/// `FeoxStore` never builds but the property speaks about ("however many shards and workers"): one worker walks
+/// several shards. Nobody calls flush. Patterns: (0) records spread over every shard; (1) a full device, one key
+/// deleted to make room and a new key written, the failing write and the delete on different shards of the same
+/// worker in either order; (2) several writes waiting for room on different shards, several deletes elsewhere.
+fn wb_direct(report: &mut Report, seed: u64, rid: u64, dir: &str) {
+    use feoxdb::constants::Operation;
+    use feoxdb::core::record::Record;
+    use feoxdb::storage::free_space::FreeSpaceManager;
+    use feoxdb::storage::io::DiskIO;
+    use feoxdb::storage::write_buffer::WriteBuffer;
+    use parking_lot::RwLock;
+    let mut rng = Rng::derive(seed, rid, 0xd1ec7);
+    let cpus = *rng.pick(&[4usize, 6, 8, 12, 16]);
+    let pattern = rid % 3;
+    let data_blocks: u64 = if pattern == 0 { 4096 } else { rng.range(2, 8) };
+    let device_size = (16 + data_blocks) * 4096;
+    let path = format!("{dir}/wbd-{rid}.dev");
+    let _ = std::fs::remove_file(&path);
+    let file = match std::fs::OpenOptions::new().read(true).write(true).create(true).truncate(true).open(&path) {
+        Ok(f) => f,
+        Err(e) => {
+            report.inconclusive.push(format!("wb_direct: cannot create device: {e}"));
+            return;
+        }
+    };
+    file.set_len(device_size).unwrap();
+    let mon = hub().watch(&path);
+    mon.set_recording(false);
+    let disk_io = Arc::new(RwLock::new(DiskIO::new(Arc::new(file), false).expect("DiskIO")));
+    let free_space = Arc::new(RwLock::new(FreeSpaceManager::new()));
+    free_space.write().initialize(device_size).expect("free space");
+    let stats = Arc::new(feoxdb::stats::Statistics::new());
+    let mut wb = storeutil::with_cpus(cpus, || WriteBuffer::new(disk_io, free_space.clone(), stats, 3));
+    let shards = wb.verif_pending().shard_counts.len();
+    if shards < 2 {
+        report.inconclusive.push("wb_direct: only one shard available".into());
+        return;
+    }
+    let workers = 1 + rng.usize_below(shards - 1); // 1 ..= shards-1: at least one worker owns several shards
+    wb.start_workers(workers);
+    let replay = json!({"engine": "live", "mode": "wb", "direct": true, "seed": seed, "run": rid, "pattern": pattern, "shards": shards, "workers": workers, "data_blocks": data_blocks});
+    let mut nonce = 0u64;
+    let mut record_on = |wb: &WriteBuffer, shard: usize, len: usize| -> Arc<Record> {
+        loop {
+            nonce += 1;
+            let key = format!("d{rid}-{nonce}").into_bytes();
+            if wb.verif_shard_of(&key) == shard {
+                return Arc::new(Record::new(key, vec![b'v'; len], nonce));
+            }
+        }
+    };
+    let insert = |wb: &WriteBuffer, r: &Arc<Record>| wb.add_write(Operation::Insert, r.clone(), 0).is_ok();
+    let delete = |wb: &WriteBuffer, r: &Arc<Record>| {
+        r.refcount.store(0, Ordering::Release);
+        wb.add_write(Operation::Delete, r.clone(), r.value_len).is_ok()
+    };
+    let durable = |r: &Arc<Record>| r.sector.load(Ordering::Acquire) != 0;
+    // wait until `done`, judged logically: still not done after 12 s AND nothing moved for 5 s = stuck
+    let settle = |wb: &WriteBuffer, done: &dyn Fn() -> bool| -> Result<u64, Option<String>> {
+        let t0 = Instant::now();
+        let mut last_change = Instant::now();
+        let mut last_sig = (Vec::new(), 0usize, 0u32, 0u64);
+        loop {
+            let p = wb.verif_pending();
+            if done() && p.retirements == 0 && p.shard_queued.iter().all(|q| *q == 0) {
+                return Ok(t0.elapsed().as_millis() as u64);
+            }
+            let sig = (p.shard_queued.clone(), p.retirements, mon.calls(), free_space.read().get_total_free());
+            if sig != last_sig {
+                last_sig = sig;
+                last_change = Instant::now();
+            }
+            if t0.elapsed() > Duration::from_secs(12) {
+                if last_change.elapsed() > Duration::from_secs(5) {
+                    return Err(Some(format!("queued per shard {:?}, retirements {}, free bytes {}, {} workers for {} shards", p.shard_queued, p.retirements, last_sig.3, workers, shards)));
+                }
+                if t0.elapsed() > Duration::from_secs(40) {
+                    return Err(None);
+                }
+            }
+            std::thread::sleep(Duration::from_millis(15));
+        }
+    };
+    let mut verdict: Option<(String, String)> = None;
+    let mut drain_ms = 0;
+    match pattern {
+        0 => {
+            let recs: Vec<Arc<Record>> = (0..shards * 24).map(|i| record_on(&wb, i % shards, if i % 5 == 0 { 6000 } else { 200 })).collect();
+            for r in &recs {
+                insert(&wb, r);
+            }
+            match settle(&wb, &|| recs.iter().all(durable)) {
+                Ok(ms) => drain_ms = ms,
+                Err(Some(why)) => verdict = Some(("wb:direct-stuck".into(), format!("records spread over every shard were not all durable 12 s after the last call, nothing moving for 5 s, no flush: {why}"))),
+                Err(None) => report.inconclusive.push("wb_direct: pattern 0 still moving after 40 s".into()),
+            }
+        }
+        _ => {
+            // fill the device with one-block records on random shards
+            let fill: Vec<Arc<Record>> = (0..data_blocks as usize).map(|_| record_on(&wb, rng.usize_below(shards), 100)).collect();
+            for r in &fill {
+                insert(&wb, r);
+            }
+            match settle(&wb, &|| fill.iter().all(durable)) {
+                Ok(_) => {}
+                Err(Some(why)) => verdict = Some(("wb:direct-stuck".into(), format!("initial fill of {data_blocks} one-block records never became durable: {why}"))),
+                Err(None) => report.inconclusive.push("wb_direct: initial fill still moving after 40 s".into()),
+            }
+            if verdict.is_none() {
+                let pairs = if pattern == 1 { 1 } else { (data_blocks as usize / 2).max(1) };
+                let mut news = Vec::new();
+                let mut ops: Vec<(bool, usize)> = Vec::new(); // (is_write, index)
+                for i in 0..pairs {
+                    // the write waiting for room and the delete that makes it: shards in either order, often
+                    // owned by the same worker
+                    let a = rng.usize_below(shards);
+                    let n = record_on(&wb, a, 100);
+                    news.push(n);
+                    ops.push((true, i));
+                    ops.push((false, i));
+                }
+                rng.shuffle(&mut ops);
+                for (is_write, i) in ops {
+                    if is_write {
+                        insert(&wb, &news[i]);
+                    } else {
+                        delete(&wb, &fill[i]);
+                    }
+                    if rng.chance(1, 3) {
+                        std::thread::sleep(Duration::from_millis(rng.range(0, 160)));
+                    }
+                }
+                match settle(&wb, &|| news.iter().all(durable)) {
+                    Ok(ms) => {
+                        drain_ms = ms;
+                        let free = free_space.read().get_total_free();
+                        if free != 0 {
+                            verdict = Some(("wb:direct-space".into(), format!("{pairs} one-block records deleted and {pairs} written on a full {data_blocks}-block device: everything drained but {free} bytes are free (expected 0)")));
+                        }
+                    }
+                    Err(Some(why)) => verdict = Some(("wb:direct-stuck".into(), format!("full {data_blocks}-block device, {pairs} key(s) deleted to make room and {pairs} new key(s) written, no flush: the new keys were not durable / the deletes not retired 12 s later and nothing had moved for 5 s: {why}"))),
+                    Err(None) => report.inconclusive.push("wb_direct: make-room pattern still moving after 40 s".into()),
+                }
+            }
+        }
+    }
+    report.evaluations += 1;
+    report.count("direct_write_buffer_runs", 1);
+    report.count(&format!("direct_pattern_{pattern}"), 1);
+    report.count("direct_drain_ms_total", drain_ms);
+    report.nontrivial.insert(fnv_mix(fnv_mix(0xd1, pattern), fnv_mix(shards as u64, workers as u64)));
+    if let Some((sig, msg)) = verdict {
+        report.violation(sig, msg, replay);
+    }
+    hub().unwatch(&mon);
+    drop(wb);
+    let _ = std::fs::remove_file(&path);
+}
+
 pub fn run_wb(args: &Args, report: &mut Report) {
     let shard = args.num("shard", 0);
     let shards = args.num("shards", 1).max(1);
@@ -488,6 +648,9 @@ pub fn run_wb(args: &Args, report: &mut Report) {
             continue;
         }
         wb_run(report, args.seed, r, &scratch.0);
+        if r % 2 == 0 {
+            wb_direct(report, args.seed, r / 2, &scratch.0);
+        }
         if report.violations.len() >= 3 {
             break;
         }
